@@ -84,8 +84,9 @@ __CPROVER_assigns(vg_live)
 __CPROVER_ensures(C != NULL ==> (__CPROVER_return_value == C && vg_live == __CPROVER_old(vg_live)))
 __CPROVER_ensures(C == NULL ==> (FRESH_HDR(__CPROVER_return_value) && __CPROVER_return_value->nrows == A->nrows && __CPROVER_return_value->ncols == B->ncols && !WINDOWED(__CPROVER_return_value) && vg_live == __CPROVER_old(vg_live) + 1));
 
+/* (empty operands are allowed: the front end returns before any kernel is called -- used by the PLUQ solve with rank 0 / full rank) */
 mzd_t *mzd_addmul(mzd_t *C, mzd_t const *A, mzd_t const *B, int cutoff)
-__CPROVER_requires(SHP(A) && SHP(B) && NE(A) && NE(B) && A->ncols == B->nrows && cutoff >= 0 && cutoff <= (1 << 28))
+__CPROVER_requires(SHP(A) && SHP(B) && A->ncols == B->nrows && cutoff >= 0 && cutoff <= (1 << 28))
 __CPROVER_requires(C == NULL || (SHP(C) && C->nrows == A->nrows && C->ncols == B->ncols))
 __CPROVER_assigns(vg_live)
 __CPROVER_ensures(C != NULL ==> (__CPROVER_return_value == C && vg_live == __CPROVER_old(vg_live)))
